@@ -9,12 +9,12 @@ func init() {
 func runC09(c *Check) error {
 	K, KR, KH, NV := 2, 1, 2, 5
 	if c.Tier == "thorough" {
-		K, KR, KH, NV = 3, 3, 4, 6
+		K, KR, KH, NV = 3, 2, 3, 6
 	}
 	c.Bounds = append(c.Bounds,
 		"Validate, Parse's version dispatch, Compare/Less/LessOrEqual/Greater/GreaterOrEqual/InRange: all 64-bit (major, minor) values, no bound",
 		bound("version.New: every byte string of length 0..%d", NV),
-		bound("nil version == 7.4: \"<?php \"/\"<?\" + every byte string of length 0..%d; class equivalence: the same prefixes + 0..%d bytes; both: heredoc/version-sensitive prefixes + 0..%d bytes; the second version is fully symbolic within its class", K, KR, KH))
+		bound("nil version == 7.4: \"<?php \"/\"<?\" + every byte string of length 0..%d; class equivalence: the same prefixes + 0..%d bytes; both: heredoc prefixes + 0..%d bytes, other version-sensitive prefixes + 0..2 bytes; the second version is fully symbolic within its class", K, KR, KH))
 	c.Assumptions = append(c.Assumptions, stdAssumptions...)
 	var proof []*interp.Job
 	need := func(j *interp.Job, cov ...string) {
@@ -40,9 +40,13 @@ func runC09(c *Check) error {
 		c.ExploreNeed(jobTmpl("H_C09_Default", "default", tmpl(tC(p), tH('a', 0, K)), "", fuel), "default")
 		c.ExploreNeed(jobTmpl("H_C09_Rel", "class-equivalence", tmpl(tC(p), tH('a', 0, KR)), "", fuel), "rel")
 	}
-	for _, p := range []string{"<?php <<<A\n", "<?php <<<A\n a\n ", "<?php <<<'A'\n", "<?php \"$a[", "<?php fn", "<?php 1_"} {
-		c.ExploreNeed(jobTmpl("H_C09_Default", "default", tmpl(tC(p), tH('a', 0, KH)), "", fuel), "default")
-		c.ExploreNeed(jobTmpl("H_C09_Rel", "class-equivalence", tmpl(tC(p), tH('a', 0, KH)), "", fuel), "rel")
+	for i, p := range []string{"<?php <<<A\n", "<?php <<<A\n a\n ", "<?php <<<'A'\n", "<?php \"$a[", "<?php fn", "<?php 1_"} {
+		kh := KH
+		if i >= 3 && kh > 2 {
+			kh = 2 // PHP-mode prefixes: ~30 behaviours per byte, two versions on every path
+		}
+		c.ExploreNeed(jobTmpl("H_C09_Default", "default", tmpl(tC(p), tH('a', 0, kh)), "", fuel), "default")
+		c.ExploreNeed(jobTmpl("H_C09_Rel", "class-equivalence", tmpl(tC(p), tH('a', 0, kh)), "", fuel), "rel")
 	}
 	return nil
 }
